@@ -43,17 +43,80 @@ def py_table(tree, rel, name):
     if node is None:
         raise AnalysisError("table %s vanished from %s" % (name, rel))
     try:
-        return pf.literal(node, mod.assigns), node
+        return py_lit(node, mod.assigns), node
     except pf.NotLiteral as e:
         raise AnalysisError("table %s in %s is no longer a literal (%s)" % (name, rel, e))
 
 
+def py_lit(node, env=None):
+    """pf.literal plus the equivalent spellings dict(k=v, ...), dict([(k, v), ...]), list(...), tuple(...),
+    set(...), {**A, ...}, A | B for dicts, and names of other module-level literals."""
+    env = env or {}
+    if isinstance(node, ast.Name) and node.id in env and isinstance(env[node.id], ast.AST):
+        return py_lit(env[node.id], env)
+    if isinstance(node, ast.Call) and isinstance(node.func, ast.Name):
+        f = node.func.id
+        if f == "dict":
+            out = {}
+            if node.args:
+                a = py_lit(node.args[0], env)
+                out.update(dict(a) if not isinstance(a, dict) else a)
+            for kw in node.keywords:
+                if kw.arg is None:
+                    out.update(py_lit(kw.value, env))
+                else:
+                    out[kw.arg] = py_lit(kw.value, env)
+            return out
+        if f in ("list", "tuple", "set", "frozenset", "sorted") and len(node.args) <= 1 and not node.keywords:
+            v = py_lit(node.args[0], env) if node.args else []
+            v = list(v.keys()) if isinstance(v, dict) else list(v)
+            return {"list": v, "sorted": sorted(v), "tuple": tuple(v), "set": set(v), "frozenset": set(v)}[f]
+    if isinstance(node, ast.Dict):
+        out = {}
+        for k, v in zip(node.keys, node.values):
+            if k is None:
+                out.update(py_lit(v, env))
+            else:
+                out[py_lit(k, env)] = py_lit(v, env)
+        return out
+    if isinstance(node, (ast.List, ast.Tuple)):
+        v = []
+        for e in node.elts:
+            if isinstance(e, ast.Starred):
+                v.extend(py_lit(e.value, env))
+            else:
+                v.append(py_lit(e, env))
+        return v if isinstance(node, ast.List) else tuple(v)
+    if isinstance(node, ast.BinOp) and isinstance(node.op, ast.BitOr):
+        a, b = py_lit(node.left, env), py_lit(node.right, env)
+        if isinstance(a, dict) and isinstance(b, dict):
+            return {**a, **b}
+    if isinstance(node, ast.BinOp) and isinstance(node.op, ast.Add):
+        a, b = py_lit(node.left, env), py_lit(node.right, env)
+        try:
+            return a + b
+        except TypeError:
+            raise pf.NotLiteral(pf.src(node))
+    if isinstance(node, ast.ListComp) and len(node.generators) == 1 and not node.generators[0].ifs \
+            and isinstance(node.generators[0].target, ast.Name) and isinstance(node.elt, ast.Name) \
+            and node.elt.id == node.generators[0].target.id:
+        return list(py_lit(node.generators[0].iter, env))
+    return pf.literal(node, env)
+
+
 def py_table_items(node):
     """[(key value, key node, value node)] of a dict literal node (for per-entry reports)."""
+    out = []
+    if isinstance(node, ast.Call) and isinstance(node.func, ast.Name) and node.func.id == "dict":
+        for kw in node.keywords:
+            if kw.arg is not None:
+                out.append((kw.arg, kw.value, kw.value))
+        return out
     if not isinstance(node, ast.Dict):
         return []
-    out = []
     for k, v in zip(node.keys, node.values):
+        if k is None:
+            continue
         try:
             out.append((pf.literal(k), k, v))
         except pf.NotLiteral:
@@ -305,6 +368,102 @@ def walk_stmts(n):
         todo.extend(reversed(cfacts.kids(x)))
 
 
+def base_type(t):
+    """C type spelling without cv/restrict qualifiers and redundant blanks (`const double *restrict` -> `double *`)"""
+    t = re.sub(r"\b(const|volatile|restrict|__restrict|__restrict__)\b", " ", t or "")
+    t = re.sub(r"\s+", " ", t).strip()
+    t = re.sub(r"\s*\*\s*", " *", t)
+    t = re.sub(r"\*\s+\*", "**", t)
+    return t.strip()
+
+
+def ptype(p):
+    return base_type(p.get("type", {}).get("qualType", ""))
+
+
+ENUM_CONSTS = {}  # name -> int, filled by load_enums (enumeration constants are TU-wide names)
+
+
+def load_enums(tu, tree=None):
+    """enumeration constants defined in the translation unit's own text and (with `tree`) in the library's
+    headers -> {name: value}; also remembered for const_int / Ev (clang's JSON gives no value for a case
+    label spelled with an enumerator)."""
+    texts = [tu.text]
+    if tree is not None:
+        for hdr in tree.glob(cfacts.LIB + "/*/*.h"):
+            try:
+                texts.append(tree.read(hdr))
+            except AnalysisError:
+                pass
+    out = {}
+    for text in texts:
+        toks = c_tokens(text)
+        i = 0
+        while i < len(toks):
+            if toks[i][1] == "enum":
+                j = i + 1
+                if j < len(toks) and toks[j][0] == "id":
+                    j += 1
+                if j < len(toks) and toks[j][1] == "{":
+                    e = _match(toks, j, "{", "}")
+                    nxt = 0
+                    k = j + 1
+                    while k < e:
+                        if toks[k][0] != "id":
+                            k += 1
+                            continue
+                        name = toks[k][1]
+                        k += 1
+                        if k < e and toks[k][1] == "=":
+                            k += 1
+                            expr = []
+                            while k < e and toks[k][1] != ",":
+                                expr.append(toks[k][1])
+                                k += 1
+                            v = _int_expr(expr, out, tu)
+                            if v is None:
+                                break
+                            nxt = v
+                        out[name] = nxt
+                        nxt += 1
+                        while k < e and toks[k][1] != ",":
+                            k += 1
+                        k += 1
+                    i = e
+            i += 1
+        # file-scope / local `[static] const int NAME = <integer constant expression>;`
+        for m in re.finditer(r"\bconst\s+(?:unsigned\s+)?(?:int|long|size_t)\s+(\w+)\s*=\s*([^;{}]+);", text):
+            v = _int_expr([t[1] for t in c_tokens(m.group(2))], out, tu)
+            if v is not None and m.group(1) not in out:
+                out[m.group(1)] = v
+    tu._enums = out
+    ENUM_CONSTS.update(out)
+    return out
+
+
+def _int_expr(tokens, names, tu):
+    """value of a tiny integer constant expression (literals, known enumerators / object-like macros, + - * ( ))"""
+    parts = []
+    for t in tokens:
+        if re.fullmatch(r"\d+[uUlL]*", t):
+            parts.append(str(int(re.sub(r"[uUlL]", "", t))))
+        elif re.fullmatch(r"0[xX][0-9a-fA-F]+", t):
+            parts.append(str(int(t, 16)))
+        elif t in names:
+            parts.append(str(names[t]))
+        elif t in ("+", "-", "*", "(", ")", "<<", "|"):
+            parts.append(t)
+        else:
+            mv = macro_int(tu, t)
+            if mv is None:
+                return None
+            parts.append(str(mv))
+    try:
+        return int(eval(" ".join(parts), {"__builtins__": {}}, {}))  # digits and + - * ( ) << | only
+    except Exception:
+        return None
+
+
 def const_int(n):
     """integer value of a constant expression node, or None"""
     n = cfacts.strip(n)
@@ -319,6 +478,11 @@ def const_int(n):
         return const_int(kk[0]) if kk else None
     if k == "IntegerLiteral":
         return int(n["value"])
+    if k == "DeclRefExpr" and n.get("referencedDecl", {}).get("kind") == "EnumConstantDecl":
+        return ENUM_CONSTS.get(n["referencedDecl"].get("name"))
+    if k == "DeclRefExpr" and n.get("referencedDecl", {}).get("kind") == "VarDecl" \
+            and "const" in n["referencedDecl"].get("type", {}).get("qualType", ""):
+        return ENUM_CONSTS.get(n["referencedDecl"].get("name"))
     if k == "UnaryOperator" and n.get("opcode") in ("-", "+"):
         v = const_int(cfacts.kids(n)[0])
         return None if v is None else (-v if n["opcode"] == "-" else v)
@@ -392,6 +556,55 @@ def _eq_consts(tu, cond):
             return None
         return norm_c(tu.text_of(cfacts.strip(l))), [v]
     return None
+
+
+def _eq_var_node(cond):
+    """the tested expression node E of `E == k [|| E == k2]`"""
+    cond = cfacts.strip(cond)
+    while cond.get("kind") == "BinaryOperator" and cond.get("opcode") == "||":
+        cond = cfacts.strip(cfacts.kids(cond)[0])
+    if cond.get("kind") == "BinaryOperator" and cond.get("opcode") == "==":
+        l, r = cfacts.kids(cond)
+        return cfacts.strip(l) if const_int(r) is not None else cfacts.strip(r)
+    return None
+
+
+def c_dispatch_tables(tu, fname):
+    """if/else-if ladders on `E == k` AND `switch (E)` statements of a function, in one shape:
+    [ {var, var_node, arms: [ {values, stmt, node} ], orelse: stmt|None, node, form: 'if'|'switch'} ]
+    (a switch group that falls through into the next one is an analysis error for the caller: `falls`)."""
+    out = []
+    for lad in c_if_ladders(tu, fname):
+        lad = dict(lad)
+        lad["form"] = "if"
+        lad["var_node"] = _eq_var_node(cfacts.kids(lad["arms"][0]["node"])[0])
+        lad["falls"] = []
+        out.append(lad)
+    for sw in c_switch(tu, fname):
+        arms, orelse, falls = [], None, []
+        for g in sw["cases"]:
+            body = [x for x in g["stmts"] if x.get("kind") != "BreakStmt"]
+            stmt = {"kind": "CompoundStmt", "inner": body, "range": g["node"].get("range", {})}
+            exits = g["breaks"] or any(_is_exit(x) for x in g["stmts"]) or g is sw["cases"][-1]
+            if not exits:
+                falls.append(g)
+            if g["values"]:
+                arms.append({"values": list(g["values"]), "stmt": stmt, "node": g["node"]})
+            if g["default"]:
+                orelse = stmt
+        if len(arms) >= 2:
+            out.append({"var": sw["var_text"], "var_node": sw["var"], "arms": arms, "orelse": orelse,
+                        "node": sw["node"], "form": "switch", "falls": falls})
+    return out
+
+
+def _is_exit(st):
+    if st.get("kind") == "ReturnStmt":
+        return True
+    if st.get("kind") == "CallExpr":
+        c = cfacts.strip(cfacts.kids(st)[0])
+        return c.get("referencedDecl", {}).get("name") in ("exit", "abort")
+    return False
 
 
 def c_if_ladders(tu, fname):
@@ -574,11 +787,13 @@ class Ev:
         self.mismatches = []  # (text, message)
         self.depth = 0
         self.switch_results = []
+        self.inline_calls = False  # follow call statements into functions of the same TU
         self.expand = False    # distribute products of sums instead of atomising the factors
         self.lenient = False   # skip statements that cannot be interpreted (their targets become unknown)
         self.unroll = False    # execute counted loops with constant bounds iteration by iteration
         self.max_iter = 400
         self.concrete = {}     # field key / variable name -> constant, for unrolling
+        self._ladder_nodes = set()
         self.calls = []        # call statements met: {name, args: [Poly|None], conds, node}
         self.skipped = []
 
@@ -666,7 +881,7 @@ class Ev:
         k = n.get("kind")
         if k in ("ImplicitCastExpr", "ParenExpr", "CStyleCastExpr", "ConstantExpr"):
             ks = cfacts.kids(n)
-            if k == "CStyleCastExpr" and _qt(n) == "int" and _qt(ks[0]) not in ("int", "size_t", "long"):
+            if k == "CStyleCastExpr" and _bt(n) == "int" and _bt(ks[0]) not in INT_TYPES:
                 return Poly.atom(("fn", "(int)", (self.expr(ks[0], env).canon(),)))
             return self.expr(ks[0], env)
         if k == "ImaginaryLiteral":
@@ -701,7 +916,7 @@ class Ev:
                 return self.mul(self.expr(a, env), self.expr(b, env), self.where(n))
             if op == "/":
                 x, y = self.expr(a, env), self.expr(b, env)
-                if _qt(n) in ("int", "long", "size_t", "unsigned int", "unsigned long"):
+                if _bt(n) in INT_TYPES:
                     cx, cy = x.const_value(), y.const_value()
                     if cx is not None and cy is not None and cy != 0 and not x.t.keys() - {()}:
                         return Poly.const(int(cx) // int(cy) if cx * cy >= 0 else -(-int(cx) // int(cy)))
@@ -771,7 +986,7 @@ class Ev:
             if v is None:
                 raise AnalysisError("read of %s whose value is not tracked (%s)" % (rd.get("name"), self.where(n)))
             return v
-        if did in env.get("carried", ()) and _qtd(rd) in ("int", "size_t", "long", "unsigned int", "const int"):
+        if did in env.get("carried", ()) and base_type(_qtd(rd)) in INT_TYPES:
             # an integer carried across iterations (running maximum, counter): opaque, never equal to anything
             return Poly.atom(("sym", "carried:" + str(rd.get("name"))))
         if did in env.get("carried", ()):
@@ -781,10 +996,12 @@ class Ev:
             role = env["roles"].get(did)
             if role is not None:
                 return Poly.atom(("sym", role))
-            if _qtd(rd) in ("int", "size_t", "long", "unsigned int", "const int", "unsigned long"):
+            if base_type(_qtd(rd)) in INT_TYPES:
                 return Poly.atom(("sym", "int:" + str(rd.get("name"))))
             raise AnalysisError("read of untracked variable %s in %s" % (rd.get("name"), self.where(n)))
         if rd.get("kind") == "EnumConstantDecl":
+            if rd.get("name") in ENUM_CONSTS:
+                return Poly.const(ENUM_CONSTS[rd.get("name")])
             return Poly.atom(("sym", "enum:" + str(rd.get("name"))))
         raise AnalysisError("unsupported reference %s in %s" % (rd.get("name"), self.where(n)))
 
@@ -863,25 +1080,40 @@ class Ev:
                                                            "dimensionless quantity" % (name, d[0], d[1])))
             return Poly.atom(("fn", name, tuple(v.canon() for v in vals)))
         if name in self.tu.funcs:
-            return self.call_tu(name, [self.expr(a, env) for a in args], n)
+            vals = []
+            for a in args:
+                if _is_ptr(a):
+                    vals.append(("ptr", self.pointer(a, env)))
+                else:
+                    vals.append(self.expr(a, env))
+            return self.call_tu(name, vals, n, caller=env)
         raise AnalysisError("call of %s cannot be evaluated (%s)" % (name, self.where(n)))
 
-    def call_tu(self, name, argvals, site=None):
-        """value returned by a straight-line function of this TU for scalar arguments"""
+    def call_tu(self, name, argvals, site=None, caller=None, need_value=True):
+        """value returned by a function of this TU; scalar arguments are polynomials, pointer arguments
+        ("ptr", (root, offset)) alias the caller's memory (stores made by the callee are the caller's)"""
         if self.depth > 12:
             raise AnalysisError("recursion too deep evaluating %s" % name)
         ps = self.tu.params(name)
         if len(ps) != len(argvals):
             raise AnalysisError("call of %s with %d arguments, %d parameters" % (name, len(argvals), len(ps)))
         env = new_env()
+        if caller is not None:
+            for k in ("mem", "stores", "fields", "fields_by_type", "allocs", "zero_roots"):
+                if k in caller:
+                    env[k] = caller[k]
+            env["conds"] = list(caller["conds"])
         for p, v in zip(ps, argvals):
-            env["vals"][p.get("id")] = v
+            if isinstance(v, tuple) and len(v) == 2 and v[0] == "ptr":
+                env["ptrs"][p.get("id")] = v[1]
+            elif v is not None:
+                env["vals"][p.get("id")] = v
         self.depth += 1
         try:
             r = self.block(self.tu.body(name), env)
         finally:
             self.depth -= 1
-        if r is None:
+        if r is None and need_value:
             raise AnalysisError("%s has no return value on its straight-line path" % name)
         return r
 
@@ -984,8 +1216,43 @@ class Ev:
                         break
                     self.block(s, e2)
                 res["groups"].append({"values": g["values"], "default": g["default"], "breaks": g["breaks"],
-                                      "stores": e2["stores"][n0:], "mem": e2["mem"], "node": g["node"]})
+                                      "stores": e2["stores"][n0:], "mem": e2["mem"], "node": g["node"], "env": e2})
             self.switch_results.append(res)
+            # effects seen after the switch: stores of every group (tagged with the selecting condition);
+            # scalars / pointers / fields that the groups leave different are unknown
+            allv = []
+            for g in res["groups"]:
+                allv += g["values"]
+            for g in res["groups"]:
+                if g["values"]:
+                    tag = "||".join("%s==%s" % (res["var_text"], v) for v in g["values"])
+                else:
+                    tag = "!(" + "||".join("%s==%s" % (res["var_text"], v) for v in allv) + ")"
+                for st in g["stores"]:
+                    st2 = dict(st)
+                    st2["conds"] = tuple(env["conds"]) + (tag,) + tuple(st["conds"][len(env["conds"]):])
+                    env["stores"].append(st2)
+            has_default = any(g["default"] for g in res["groups"])
+            envs = [g["env"] for g in res["groups"]] + ([] if has_default else [env])
+            for tab in ("vals", "fields", "ptrs"):
+                keys = set()
+                for e2 in envs:
+                    keys |= set(e2[tab])
+                base = dict(env[tab])
+                for key in keys:
+                    vs = [e2[tab].get(key, MISSING) for e2 in envs]
+                    if all(v == vs[0] for v in vs):
+                        if vs[0] is MISSING:
+                            env[tab].pop(key, None)
+                        else:
+                            env[tab][key] = vs[0]
+                    else:
+                        env[tab][key] = None
+            for g in res["groups"]:
+                for key, v in g["mem"].items():
+                    if env["mem"].get(key, MISSING) != v:
+                        env["mem"][key] = Poly.atom(("sym", "unknown:%s" % (key[0],)))
+                g.pop("env", None)
             return None
         if k == "CallExpr":
             callee = cfacts.strip(cfacts.kids(n)[0])
@@ -999,6 +1266,15 @@ class Ev:
                 except AnalysisError:
                     args.append(None)
             self.calls.append({"name": name, "args": args, "conds": tuple(env["conds"]), "node": n})
+            if self.inline_calls and name in self.tu.funcs and self.tu.body(name) is not None:
+                # one level of helper extraction: the callee's stores through its pointer parameters are
+                # made on the caller's arrays
+                vals = []
+                for a, v in zip(cfacts.kids(n)[1:], args):
+                    vals.append(("ptr", self.pointer(a, env)) if _is_ptr(a) else v)
+                # (an argument that is not a number or a pointer -- a struct by value -- stays unbound: the callee
+                # reads its members as symbols)
+                self.call_tu(name, vals, n, caller=env, need_value=False)
             return None
         raise AnalysisError("unsupported statement kind %s (%s)" % (k, self.where(n)))
 
@@ -1048,7 +1324,7 @@ class Ev:
         if st.get("kind") == "CompoundAssignOperator" and st.get("opcode") in ("+=", "-="):
             l, r = cfacts.kids(st)
             t = cfacts.strip(l)
-            if t.get("kind") == "DeclRefExpr" and not _is_ptr(t) and _qt(t) in ("int", "size_t", "long"):
+            if t.get("kind") == "DeclRefExpr" and not _is_ptr(t) and _bt(t) in INT_TYPES:
                 try:
                     kv = self.expr(r, env)
                 except AnalysisError:
@@ -1060,7 +1336,7 @@ class Ev:
         for did, (name, typ) in info.items():
             if did in keep:
                 continue
-            if typ in ("int", "size_t", "long", "unsigned int"):
+            if base_type(typ) in INT_TYPES:
                 env["vals"][did] = Poly.atom(("sym", "afterloop:%s" % name))
             else:
                 env["vals"][did] = None
@@ -1163,8 +1439,46 @@ class Ev:
         return r
 
     # -- branches ------------------------------------------------------------------------------
+    def _record_ladder(self, n, env):
+        """an if/else-if chain on `E == k` is reported like a switch (groups evaluated on forks)"""
+        arms, var, var_node, cur, orelse = [], None, None, n, None
+        while cur is not None and cur.get("kind") == "IfStmt":
+            ks = cfacts.kids(cur)
+            ec = _eq_consts(self.tu, ks[0])
+            if ec is None or (var is not None and ec[0] != var):
+                return
+            var = ec[0]
+            var_node = var_node or _eq_var_node(ks[0])
+            self._ladder_nodes.add(id(cur))
+            arms.append((ec[1], ks[1], cur))
+            if cur.get("hasElse") and len(ks) > 2:
+                cur = ks[2]
+                if cur.get("kind") != "IfStmt":
+                    orelse, cur = cur, None
+            else:
+                cur = None
+        if len(arms) < 2 or var_node is None:
+            return
+        res = {"node": n, "var": var_node, "var_text": var, "groups": [], "form": "if"}
+        for vals, stmt, node in arms + ([([], orelse, orelse)] if orelse is not None else []):
+            e2 = fork_env(env)
+            n0 = len(e2["stores"])
+            try:
+                self.block(stmt, e2)
+            except AnalysisError:
+                if not self.lenient:
+                    raise
+            res["groups"].append({"values": list(vals), "default": not vals, "breaks": True,
+                                  "stores": e2["stores"][n0:], "mem": e2["mem"], "node": node})
+        self.switch_results.append(res)
+
     def _if(self, n, env):
         ks = cfacts.kids(n)
+        if id(n) not in self._ladder_nodes:
+            saved = self.calls, self.skipped
+            self.calls, self.skipped = list(self.calls), list(self.skipped)
+            self._record_ladder(n, env)
+            self.calls, self.skipped = saved
         cond_txt = norm_c(self.tu.text_of(ks[0]))
         try:
             cv = self.expr(ks[0], env)
@@ -1424,8 +1738,16 @@ def _qtd(rd):
 
 
 def _is_ptr(n):
-    t = _qt(n)
-    return t.endswith("*") or t.endswith("]") or "*restrict" in t or "* restrict" in t
+    t = base_type(_qt(n))
+    return t.endswith("*") or t.endswith("]")
+
+
+def _bt(n):
+    return base_type(_qt(n))
+
+
+INT_TYPES = ("int", "long", "size_t", "unsigned int", "unsigned long", "unsigned", "short", "char", "long long",
+             "ssize_t", "ptrdiff_t", "int32_t", "int64_t", "uint32_t", "uint64_t")
 
 
 def _rat_root(c, e):
@@ -1490,7 +1812,7 @@ class CoordUse:
         roles = {}
         self.int_params = set()
         for p in tu.params(fname):
-            if _qt(p) in self.INT_T:
+            if _bt(p) in INT_TYPES:
                 roles[p["id"]] = "param:" + p.get("name", "?")
                 self.int_params.add("param:" + p.get("name", "?"))
         self.env = new_env(roles)
@@ -1565,28 +1887,43 @@ class CoordUse:
 
     # -- coordinate values --------------------------------------------------------------------
     def component(self, idx):
-        """Cartesian component encoded in an element index, or None.
-        interleaved xyz (`3*i + c`): constant term; planar (`c*n + i`, n an integer parameter of the
-        function): coefficient of the size parameter(s); bare `[c]`: the constant."""
-        const = Fr(0)
+        """Cartesian component encoded in an element index: 0, 1, 2, or the text of a symbolic selector
+        (`coords[3*g + c]` and `atom[c]` both give 'param:c'); None when it cannot be told.
+        interleaved xyz (`3*i + c`): what is left besides the stride-3 terms; planar (`c*n + i`, n an integer
+        parameter of the function, i a loop index): coefficient of the size parameter(s); an index made of
+        constants / parameters only (`[c]`, `[1]`): the index itself."""
         has3 = False
+        rest = {}
         psum = Fr(0)
+        loop_syms = False
         for m, c in idx.t.items():
             if m == ():
-                const = c
-            elif len(m) == 1 and m[0][1] == 1 and m[0][0][0] == "sym":
-                if c == 3:
-                    has3 = True
-                if m[0][0][1] in self.int_params:
-                    psum += c
+                rest[m] = c
+                continue
+            is_param = len(m) == 1 and m[0][1] == 1 and m[0][0][0] == "sym" and m[0][0][1] in self.int_params
+            if c == 3:
+                has3 = True  # stride of an interleaved xyz array (a planar selector is 0, 1 or 2)
+                continue
+            rest[m] = c
+            if is_param:
+                psum += c
             else:
-                # products such as ylm_atom_loc[ia]*ngrids: not a component selector
-                if any(a[0] == "sym" and a[1] in self.int_params for a, _ in m) and len(m) == 1:
-                    psum += c
-        comp = const if has3 else const + psum
-        if comp.denominator != 1 or not (0 <= comp <= 2):
-            return None
-        return int(comp)
+                loop_syms = True
+        if has3:
+            comp = Poly(rest)
+        elif loop_syms:
+            # planar layout: size parameters select the plane; everything else walks inside the plane
+            if any(len(m) == 1 and m[0][0][0] == "sym" and m[0][0][1] in self.int_params and m[0][1] != 1 for m in rest):
+                return None
+            comp = Poly.const(psum)
+        else:
+            comp = Poly(rest)
+        cv = comp.const_value()
+        if cv is not None:
+            if cv.denominator != 1 or not (0 <= cv <= 2):
+                return None
+            return int(cv)
+        return comp.text()
 
     def coord_value(self, n):
         """expression node -> (role, component or None) if it is a coordinate value"""
